@@ -29,6 +29,8 @@ type Loaded struct {
 	srcFiles map[string]string // file -> sha256
 }
 
+var deadline time.Time
+
 var (
 	repoDir    = "/repo"
 	harnessDir = "/verif/harness"
@@ -271,6 +273,7 @@ func cmdCheck(args []string) int {
 	verbose := fs.Bool("v", false, "verbose")
 	noReplay := fs.Bool("no-replay", false, "do not replay models natively")
 	caseFilter := fs.String("case", "", "restrict cases, e.g. digits=10,alg=0")
+	budget := fs.Int("budget", 0, "wall-clock budget in seconds (0 = 780 quick / 6000 thorough); work not done by then is reported as not decided")
 	fs.StringVar(&repoDir, "repo", "/repo", "repository")
 	fs.StringVar(&harnessDir, "harness", "/verif/harness", "harness sources")
 	fs.Parse(args)
@@ -343,6 +346,10 @@ func cmdCheck(args []string) int {
 			return (uint64(i)*2654435761+uint64(seed))%1000003 < (uint64(j)*2654435761+uint64(seed))%1000003
 		})
 	}
+	if *budget == 0 {
+		*budget = map[string]int{"quick": 780, "thorough": 6000}[*tier]
+	}
+	deadline = t0.Add(time.Duration(*budget) * time.Second)
 	results := make([]jobResult, len(jobs))
 	var wg sync.WaitGroup
 	sem := make(chan struct{}, *workers)
@@ -403,6 +410,8 @@ func propPackages(prop string) []loadGroup {
 	case "C18", "C19":
 		return []loadGroup{{[]string{"otp", "api"}, false}}
 	case "C20":
+		return []loadGroup{{[]string{"otp", "wasm"}, true}}
+	case "C09":
 		return []loadGroup{{[]string{"otp"}, false}, {[]string{"otp", "wasm"}, true}}
 	}
 	return []loadGroup{{[]string{"otp"}, false}}
